@@ -11,8 +11,12 @@ Definition pid := N.
 Definition inode := N.
 Definition bytes := list N.
 
-(* the three names of one save: the target, the per-process temp file  .<name>.tmp.<pid>
-   and the side-car lock file  <name>.lock *)
+(* the three names of one save: the target, the temp file of the save  .<name>.tmp.<pid>.<n>
+   and the side-car lock file  <name>.lock.  [Temp p] is the temp name of the save that process p
+   performs: the real name is chosen by the save itself with create_new (O_EXCL, [create_excl]
+   below) and a counter advanced until the creation succeeds, so it is bound by that save and by
+   nobody else (D95) -- also when two processes have the same operating-system pid (PID
+   namespaces, a recycled pid). A residue of an older save of the same pid keeps its own name. *)
 Inductive fname := Target | Temp (p : pid) | Side.
 
 Definition fname_eqb (a b : fname) : bool :=
@@ -56,6 +60,12 @@ Definition create_trunc (f : fs) (n : fname) : fs * inode :=
             (mkfs (updn (names f) n (Some i)) (updi (data f) i []) (updi (lock f) i Free) (i + 1), i)
   end.
 
+(* OpenOptions::create_new(true) (O_EXCL): refused when the name is bound, otherwise a fresh empty inode *)
+Definition create_excl (f : fs) (n : fname) : option (fs * inode) :=
+  match names f n with
+  | Some _ => None
+  | None => Some (create_trunc f n)
+  end.
 (* OpenOptions::create(true).truncate(false) *)
 Definition open_create (f : fs) (n : fname) : fs * inode :=
   match names f n with
